@@ -139,6 +139,9 @@ structure B3State where
   nFull : Nat
   nBoundary : Nat
   nWalk : Nat
+  /-- … of which: walks in which NO trial step reduced the residual, so that the last (smallest) step was taken by the
+      forced-step rule `i*n_threads + j == n_alpha-1` of `walk_descents` (`feasible = false`) -/
+  nForced : Nat
 
 inductive B3Exit where
   | converged   -- `if (nH2 == 0 && optimal_on_F) break;`  — the only exit that certifies KKT (with exact solves)
@@ -203,7 +206,7 @@ def innerLoop (E : B3Env) : (fuel : Nat) → B3State → (h2 : Array Bool) → O
       let w := walkDescents E (atF inF) (at0 s.x) (at0 xF)
       let s' : B3State := { s with x := tab E.n (trialVal (atF inF) (at0 s.x) (at0 xF) w.1), inF := inF,
                                    h1 := tab E.n (trialClamp (atF inF) (at0 s.x) (at0 xF) w.1), optF := false,
-                                   nWalk := s.nWalk + 1 }
+                                   nWalk := s.nWalk + 1, nForced := s.nForced + (if w.2 then 0 else 1) }
       if w.2 then some s' else innerLoop E fuel s' #[]
 
 /-- the `for (iter …)` loop of the repaired code -/
@@ -227,7 +230,7 @@ def outerLoop (E : B3Env) : (fuel : Nat) → B3State → B3State × B3Exit
 
 /-- initial state: `x = 0`, `y = −Atb` (given as `y0`), everything constrained -/
 def b3Init (n : Nat) (y0 : Nat → Rat) : B3State :=
-  { x := #[], y := tab n y0, inF := #[], h1 := #[], optF := true, nFull := 0, nBoundary := 0, nWalk := 0 }
+  { x := #[], y := tab n y0, inF := #[], h1 := #[], optF := true, nFull := 0, nBoundary := 0, nWalk := 0, nForced := 0 }
 
 def block3Run (E : B3Env) (y0 : Nat → Rat) : B3State × B3Exit := outerLoop E E.maxIter (b3Init E.n y0)
 
